@@ -176,7 +176,8 @@ fn factorial_lane(ctx: &mut Ctx, idx: u64) {
     let mut m = MRel::simple(["libfoo2.0", "g++"][take(2)]);
     let v = take(6);
     if v > 0 {
-        m.version = Some((relgen::OPS[v - 1].to_string(), ["1.0", "1:2.0~rc1-1", "2.3-1+b1", "0", "1.0~", "13"][v].to_string()));
+        // (index 0 is unused; "0:1.2-3" spells out the zero epoch, which must survive as written)
+        m.version = Some((relgen::OPS[v - 1].to_string(), ["1.0", "1:2.0~rc1-1", "2.3-1+b1", "0", "1.0~", "0:1.2-3"][v].to_string()));
     }
     m.archqual = [None, Some("any"), Some("native"), Some("amd64")][take(4)].map(|s| s.to_string());
     m.archs = match take(5) {
